@@ -13,8 +13,8 @@ class C15(Prop):
     ID = "C15"
     NEED_BINS = True
     PER_CASE_TIMEOUT = 120.0
-    THEOREMS = ["C15_merge_into", "C15_merge_into_no_overlap", "C15_merge_many", "C15_fill", "C15_fill_start_to_end",
-                "C15_fill_signal", "C15_tool_pipeline", "C15_tool_chunked", "C15_output_names"]
+    THEOREMS = ["C15_merge_into", "C15_merge_into_no_overlap", "C15_merge_many", "C15_merge_many_code_window", "C15_fill", "C15_fill_start_to_end",
+                "C15_fill_signal", "C15_tool_pipeline", "C15_tool_chunked", "C15_tool_run", "C15_outputs_agree", "C15_output_names"]
     RULE = ("library cases: merge_into over all 13 interval relations x zero/non-zero values (thorough: every pair with ends <= 4 "
             "x 16 value pairs, both orders, non-overlapping included); merge_sections_many on 1..5 streams whose breakpoints are drawn "
             "around bases 0, W-1, W, W+1, 2W-1, 2W, 2W+1, 3W (W = 50000) and at random, with values crossing one or several windows, "
